@@ -345,6 +345,144 @@ func genProxy(c *ctx) *leanFile {
 	g, f = clears("clearSubscribers")
 	l.boolean("clearSubscribersDeletesAndCloses", g, f, "clearSubscribers not found")
 
+	// Store{Publisher,Subscriber} refuse a closed session: `if s.ctx.Err() != nil { return false }`
+	// before the map assignment; processCommand undoes the creation when refused:
+	// `if !session.StoreX(...) { s.DeleteClient(...); go x.Close(...); return }`
+	storeRefuses := func(name string) (bool, bool) {
+		fd := findFunc(ses, "ProxySession", name)
+		if fd == nil || fd.Body == nil {
+			return false, false
+		}
+		guard := false
+		for _, st := range fd.Body.List {
+			switch x := st.(type) {
+			case *ast.IfStmt:
+				b, ok := x.Cond.(*ast.BinaryExpr)
+				if !ok || b.Op != token.NEQ || !isIdent(b.Y, "nil") {
+					continue
+				}
+				call, ok := b.X.(*ast.CallExpr)
+				if !ok {
+					continue
+				}
+				sel, ok := call.Fun.(*ast.SelectorExpr)
+				if !ok || sel.Sel.Name != "Err" {
+					continue
+				}
+				inner, ok := sel.X.(*ast.SelectorExpr)
+				if !ok || !isIdent(inner.X, "s") || inner.Sel.Name != "ctx" || len(x.Body.List) == 0 {
+					continue
+				}
+				if rs, ok := x.Body.List[len(x.Body.List)-1].(*ast.ReturnStmt); ok && len(rs.Results) == 1 && isIdent(rs.Results[0], "false") {
+					guard = true
+				}
+			case *ast.AssignStmt:
+				// the first map store must come after the guard
+				if _, ok := x.Lhs[0].(*ast.IndexExpr); ok {
+					return guard, true
+				}
+			}
+		}
+		return false, true
+	}
+	g, f = storeRefuses("StorePublisher")
+	l.boolean("storePublisherRefusesClosed", g, f, "(*ProxySession).StorePublisher not found")
+	g, f = storeRefuses("StoreSubscriber")
+	l.boolean("storeSubscriberRefusesClosed", g, f, "(*ProxySession).StoreSubscriber not found")
+
+	undoesRefused := func(caseName, method string) (bool, bool) {
+		if pc == nil || pc.Body == nil {
+			return false, false
+		}
+		found, okUndo := false, false
+		ast.Inspect(pc.Body, func(n ast.Node) bool {
+			cc, ok := n.(*ast.CaseClause)
+			if !ok || len(cc.List) != 1 {
+				return true
+			}
+			if s, ok := strLit(cc.List[0]); !ok || s != caseName {
+				return true
+			}
+			found = true
+			storedGlobally := false
+			for _, st := range cc.Body {
+				switch x := st.(type) {
+				case *ast.ExprStmt:
+					if call, ok := x.X.(*ast.CallExpr); ok {
+						if s, ok := call.Fun.(*ast.SelectorExpr); ok && s.Sel.Name == "StoreClient" {
+							storedGlobally = true
+						}
+					}
+				case *ast.IfStmt:
+					u, ok := x.Cond.(*ast.UnaryExpr)
+					if !ok || u.Op != token.NOT {
+						continue
+					}
+					call, ok := u.X.(*ast.CallExpr)
+					if !ok {
+						continue
+					}
+					s, ok := call.Fun.(*ast.SelectorExpr)
+					if !ok || !isIdent(s.X, "session") || s.Sel.Name != method || len(x.Body.List) == 0 {
+						continue
+					}
+					del, cls := false, false
+					ast.Inspect(x.Body, func(m ast.Node) bool {
+						if c2, ok := m.(*ast.CallExpr); ok {
+							if s2, ok := c2.Fun.(*ast.SelectorExpr); ok {
+								switch s2.Sel.Name {
+								case "DeleteClient":
+									del = true
+								case "Close":
+									cls = true
+								}
+							}
+						}
+						return true
+					})
+					_, ret := x.Body.List[len(x.Body.List)-1].(*ast.ReturnStmt)
+					// the id is put into the global table first, so that a Close racing with the
+					// store finds it there; when the session refuses, both are undone
+					okUndo = storedGlobally && del && cls && ret
+				}
+			}
+			return false
+		})
+		return okUndo, found
+	}
+	g, f = undoesRefused("create-publisher", "StorePublisher")
+	l.boolean("createPublisherUndoesRefused", g, f, "processCommand: case \"create-publisher\" not found")
+	g, f = undoesRefused("create-subscriber", "StoreSubscriber")
+	l.boolean("createSubscriberUndoesRefused", g, f, "processCommand: case \"create-subscriber\" not found")
+
+	// clearPublishers / clearSubscribers take the lock that guards the map they empty
+	lockOf := func(name string) (string, bool) {
+		fd := findFunc(ses, "ProxySession", name)
+		if fd == nil || fd.Body == nil {
+			return "", false
+		}
+		for _, st := range fd.Body.List {
+			if es, ok := st.(*ast.ExprStmt); ok {
+				if call, ok := es.X.(*ast.CallExpr); ok {
+					if s, ok := call.Fun.(*ast.SelectorExpr); ok && s.Sel.Name == "Lock" {
+						if in, ok := s.X.(*ast.SelectorExpr); ok && isIdent(in.X, "s") {
+							return in.Sel.Name, true
+						}
+					}
+				}
+			}
+		}
+		return "", false
+	}
+	lk, f2 := lockOf("clearPublishers")
+	l.str("clearPublishersLock", lk, f2, "clearPublishers: s.<lock>.Lock() not found")
+	lk, f2 = lockOf("clearSubscribers")
+	l.str("clearSubscribersLock", lk, f2, "clearSubscribers: s.<lock>.Lock() not found")
+	lk, f2 = lockOf("StorePublisher")
+	l.str("storePublisherLock", lk, f2, "StorePublisher: s.<lock>.Lock() not found")
+	lk, f2 = lockOf("StoreSubscriber")
+	l.str("storeSubscriberLock", lk, f2, "StoreSubscriber: s.<lock>.Lock() not found")
+
 	// onMcuDisconnected notifies every session
 	omd := findFunc(srv, "ProxyServer", "onMcuDisconnected")
 	notifies := false
